@@ -142,7 +142,17 @@ class Case:
             pass
         tm.gradient__ = True
         before_flags = (tm.gradient__, tm.retain_grads__)
-        history = trainer.fit(train_loader, sp["epochs"], validation_loader=val_loader)
+        cb_train = cb_val = None
+        if sp.get("callbacks"):
+            # per-epoch callbacks that leave the model in the *wrong* mode (e.g. a prediction snapshot through
+            # trainer.test in on_train_epoch): the updates must still run in training mode, validation in eval mode
+            def cb_train(m, loader):
+                m.eval()
+
+            def cb_val(m, loader):
+                m.train()
+        history = trainer.fit(train_loader, sp["epochs"], validation_loader=val_loader,
+                              on_train_epoch=cb_train, on_validation_epoch=cb_val)
         after_flags = (tm.gradient__, tm.retain_grads__)
         out.fact("fit leaves the global gradient mode as it found it", before_flags == after_flags, "%s -> %s" % (before_flags, after_flags))
 
@@ -280,6 +290,9 @@ def enumerate_specs(tier):
                     continue
                 specs.append({"epochs": epochs, "batches": nb, "val": val, "evaluator": None, "grad_on_entry": True,
                               "test": epochs == 1})
+    for nb, val in ((1, False), (2, True)):
+        specs.append({"epochs": 1 if tier == "quick" else 2, "batches": nb, "val": val, "evaluator": None, "grad_on_entry": True,
+                      "test": False, "callbacks": True})
     for mode in ("binary", "multi-class", "categorical"):
         for val in (False, True):
             specs.append({"epochs": 1, "batches": 1, "val": val, "evaluator": mode, "grad_on_entry": True, "test": False})
